@@ -7,7 +7,7 @@ EXTENDS UnitsKernelsDefs, TLC, Json, IOUtils, SequencesExt
 
 TimeU   == {"ns", "us", "ms", "s"}
 LengthU == {"angstrom", "mm", "cm", "m", "km"}
-EnergyU == {"ueV", "meV", "eV", "J"}
+EnergyU == {"ueV", "meV", "eV", "keV", "J"}
 AngleU  == {"rad", "deg"}
 AccelU  == {"m/s^2", "mm/s^2", "m/ms^2"}
 InvU    == {"1/angstrom", "1/nm", "1/m"}
@@ -28,7 +28,7 @@ DAssign(k) == DBase(k) \cup DInt32(k)
 (* The expected output unit depends on (kernel, U) only and the precision class on (kernel, D)  *)
 (* only, so the grid is written as its two factor tables; the harness forms the product.       *)
 URow(k, U) == [ t |-> "U", k |-> k, U |-> U, out |-> OutName(k, U, "none"),
-                os |-> UnitScale(OutName(k, U, "none")) ]
+                os |-> UnitScale(OutName(k, U, "none")), args |-> Kernel[k].args ]
 DRow(k, D) == [ t |-> "D", k |-> k, D |-> D, dt |-> ResultDType(Kernel[k].data, D, "none"),
                 data |-> SetToSeq(Kernel[k].data) ]
 URows == UNION { { URow(k, U) : U \in UAssign(k) } : k \in KernelNames }
